@@ -488,7 +488,9 @@ def r74_close(e: Engine, rep: Report):
                   witness=dataflow.render_path(path) if path else None)
     # handle(): the StopIteration arm calls CLOSE and leaves the loop
     hctx = e.method_ctx(SERVER, 'handle')
-    hg = e.build(hctx)
+    hg = e.build(hctx, inline=e.inline_same_self(
+        deny=['_handle_command', '_recv_command', '_call_custom_handler',
+              '_encrypt_session']), max_depth=3)
     hwhere = SERVER + '.handle'
     arms = [n for n in hg.of_kind('handler')
             if 'builtins.StopIteration' in n.extra.get('types', [])]
@@ -810,6 +812,12 @@ def r76(e: Engine, rep: Report, name: str, where: str):
             continue
         ok = any(holds(st, (True, a)) or holds(st, (False, a + ' is None'))
                  for a in aliases)
+        if not ok:
+            # path-sensitive second look (disjunctive guards; a local that is
+            # None exactly when the argument was missing)
+            alts = [(True, a) for a in aliases] + \
+                [(False, a + ' is None') for a in aliases]
+            ok = common.unguarded_path(e, g, n, alts) is None
         cands.append((n, uses[0], ok))
     # a use that completes proves the argument was not None: only the first
     # unguarded use on a path is reported
@@ -836,7 +844,9 @@ def r76(e: Engine, rep: Report, name: str, where: str):
 # ------------------------------------------------------------------ R7.7
 def r77(e: Engine, rep: Report):
     ctx = e.method_ctx(SERVER, 'handle')
-    g = e.build(ctx)
+    g = e.build(ctx, inline=e.inline_same_self(
+        deny=['_handle_command', '_recv_command', '_call_custom_handler',
+              '_encrypt_session']), max_depth=3)
     fx = e.facts(g)
     where = SERVER + '.handle'
     rep.functions.add(where)
